@@ -299,10 +299,10 @@ def run_history(history, obs, variant_seed=0, weak_states=None):
             if p0 != p1:
                 obs.count('probe:state_changed_by_rejected_call(diagnostic)')
     # "as if the rejected calls had not been made"
-    want, _ = serialize(model.doc)
+    want, lay = serialize(model.doc)
     obs.count('final_bytes_compared')
     got = stream.getvalue()
-    if got != want:
+    if not common.bytes_equivalent(got, want, lay)[0]:
         obs.violation('output_differs_from_accepted_calls_only', case,
                       {'got': got[:400], 'want': want[:400]})
     return n_acc, n_rej
